@@ -773,11 +773,13 @@ func minMaxGuardX(fn *ssa.Function, st *ssa.Store, fa *ssa.FieldAddr, kind strin
 						other = false
 					}
 				}
-				if !other {
-					continue
-				}
 				if _, ok := minMaxGuardX(fn, s, s.Addr.(*ssa.FieldAddr), kind, false); ok {
-					return "first-sample arm of a split update; strict comparison in the other arm", true
+					if other {
+						return "first-sample arm of a split update; strict comparison in the other arm", true
+					}
+					// not exclusive (`if first { Min = v }; if v < Min { Min = v }`): the first-sample store
+					// assigns the incoming value itself, after which the strict comparison cannot fire
+					return "first-sample store next to a strictly guarded update of the same accumulator", true
 				}
 			}
 		}
